@@ -385,22 +385,22 @@ Qed.
 (* non-vacuity: two ingests, a delete, a write-back task and an eviction of the trees cache next to one render *)
 Example full_nonvacuous :
   Forall (series_thread 0)
-    [put_thread 0 [0; 1] [(1, [2], true); (3, [], false)]; put_thread 0 [0] [(1, [], false)];
-     get_thread 0 [0; 1] [1; 3]; delete_thread 0 [0; 1] [1; 3]; writeback_task CTrees;
-     evict_task CTrees (save_tree 1 0)] /\
-  nth_error [put_thread 0 [0; 1] [(1, [2], true); (3, [], false)]; put_thread 0 [0] [(1, [], false)];
-             get_thread 0 [0; 1] [1; 3]; delete_thread 0 [0; 1] [1; 3]; writeback_task CTrees;
-             evict_task CTrees (save_tree 1 0)] 2 = Some (get_thread 0 [0; 1] [1; 3]).
+    [put_thread 0 [0; 1] [(2, [4], true); (6, [], false)]; put_thread 0 [0] [(2, [], false)];
+     get_thread 0 [0; 1] [2; 6]; delete_thread 0 [0; 1] [2; 6]; writeback_task CTrees;
+     evict_task CTrees (save_tree 2 0)] /\
+  nth_error [put_thread 0 [0; 1] [(2, [4], true); (6, [], false)]; put_thread 0 [0] [(2, [], false)];
+             get_thread 0 [0; 1] [2; 6]; delete_thread 0 [0; 1] [2; 6]; writeback_task CTrees;
+             evict_task CTrees (save_tree 2 0)] 2 = Some (get_thread 0 [0; 1] [2; 6]).
 Proof. split; [repeat constructor | reflexivity]. Qed.
 
 Definition full_example_threads : list thread :=
-  [put_thread 0 [0; 1] [(1, [2], true); (3, [], false)]; put_thread 0 [0] [(1, [], false)];
-   get_thread 0 [0; 1] [1; 3]; delete_thread 0 [0; 1] [1; 3]; writeback_task CTrees; evict_task CTrees (save_tree 1 0)].
+  [put_thread 0 [0; 1] [(2, [4], true); (6, [], false)]; put_thread 0 [0] [(2, [], false)];
+   get_thread 0 [0; 1] [2; 6]; delete_thread 0 [0; 1] [2; 6]; writeback_task CTrees; evict_task CTrees (save_tree 2 0)].
 
 (* a run of the full threads in which the render observes both ingests, each whole *)
 Example full_run_nonvacuous :
   let d := snd (drun 0 2 (repeat 0 200 ++ repeat 2 40 ++ repeat 1 200 ++ repeat 2 200) full_example_threads) in
-  d_obs d = [(LocTree 3, [0]); (LocTree 1, [0; 1]); (LocSegTree 0, [0; 1]); (LocSegTree 0, [0; 1])] /\
+  d_obs d = [(LocTree 6, [0]); (LocTree 2, [0; 1]); (LocSegTree 0, [0; 1]); (LocSegTree 0, [0; 1])] /\
   d_snap d = Some ([0; 1], [0; 1], [0; 1; 2]).
 Proof. vm_compute. split; reflexivity. Qed.
 
